@@ -451,3 +451,51 @@ num_harness!(num_int_float_equality, 4, {
         }
     }
 });
+
+// expt with a negative exact exponent: 1/(l^|r|) as a canonical rational (positive denominator)
+num_harness!(num_expt_negative_small, 8, {
+    let l: isize = kani::any();
+    let r: isize = kani::any();
+    kani::assume(l >= -12 && l <= 12 && l != 0 && r >= -7 && r <= -1);
+    // |l|^|r| < 2^31 so that the Rational32 branch is taken
+    let mut p: i128 = 1;
+    let mut i = 0;
+    while i < -r {
+        p *= l as i128;
+        i += 1;
+    }
+    kani::assume(p > -(1i128 << 31) && p < (1i128 << 31));
+    let res = expt(&IntV(l), &IntV(r));
+    kani::cover!(p < 0, "negative power of a negative base");
+    kani::cover!(p == 1 || p == -1, "unit");
+    match res {
+        Ok(IntV(v)) => {
+            vassert!((p == 1 && v == 1) || (p == -1 && v == -1), "integral result of a negative power is wrong");
+        }
+        Ok(Rational(q)) => {
+            vassert!(*q.denom() > 0, "rational result is not canonical: non-positive denominator");
+            vassert!((*q.numer() as i128) * p == (*q.denom() as i128), "negative power has the wrong value");
+        }
+        Ok(other) => {
+            core::mem::forget(other);
+            vassert!(false, "negative power of a small integer is neither an integer nor a small rational");
+        }
+        Err(e) => {
+            core::mem::forget(e);
+            vassert!(false, "negative power of a non-zero integer returned an error");
+        }
+    }
+});
+
+// masked twin for the listed finding "arithmetic-shift does not check the shift amount":
+// with |m| < 64 the primitive must not panic
+num_harness!(num_arithmetic_shift_total__kf, 4, {
+    let n: isize = kani::any();
+    let m: isize = kani::any();
+    kani::assume(m > -64 && m < 64);
+    let args = [IntV(n), IntV(m)];
+    let r = arithmetic_shift(&args);
+    kani::cover!(m == 63, "largest in-range left shift");
+    kani::cover!(m == -63, "largest in-range right shift");
+    core::mem::forget(r);
+});
